@@ -4,7 +4,7 @@
 # replay file); 2 = inconclusive (build problem, time-out or out-of-memory input, which are reported, never a violation).
 set -u
 target="$1"; prop="$2"; runs="$3"; jobs="${4:-8}"
-VERIF=/verif; FZ=$VERIF/fuzz; WORK=$VERIF/work
+VERIF="$(cd "$(dirname "$(readlink -f "$0")")/.." && pwd)"; FZ=$VERIF/fuzz; WORK=$VERIF/work
 seed="${VERIF_SEED:-1}"
 corpus=$WORK/fuzz-corpus/$target; art=$WORK/fuzz-artifacts/$target
 rm -rf "$corpus" "$art"; mkdir -p "$corpus" "$art"
